@@ -38,6 +38,9 @@ func registerTime(e *Engine) {
 	e.reg("time.Now", func(ex *Exec, fn *ssa.Function, args []Value) (Value, *PanicV) {
 		c := ex.ctx
 		ex.noteImpure("time.Now")
+		if fixed, ok := ex.st["fixedclock"].(*Term); ok {
+			return ex.mkTime(c.Add(fixed, c64(c, unixToInternal))), nil
+		}
 		t := c.Fresh("now", BV(64))
 		ex.recordDraw(Draw{Name: "time_now_unix", Kind: "int", Term: c.Sub(t, c64(c, unixToInternal)), Width: 64})
 		lo := c64(c, unixToInternal+1_000_000_000) // 2001
@@ -48,6 +51,16 @@ func registerTime(e *Engine) {
 		}
 		ex.clock = t
 		return ex.mkTime(t), nil
+	})
+	// verifrt.SetClock(unix): time.Now returns this instant from now on (-1: free-running again)
+	e.reg(rtPkg+".SetClock", func(ex *Exec, fn *ssa.Function, args []Value) (Value, *PanicV) {
+		t := argTerm(ex, args[0])
+		if t.isConst && t.Int() < 0 {
+			delete(ex.st, "fixedclock")
+			return nil, nil
+		}
+		ex.st["fixedclock"] = t
+		return nil, nil
 	})
 	e.reg("time.Unix", func(ex *Exec, fn *ssa.Function, args []Value) (Value, *PanicV) {
 		c := ex.ctx
